@@ -5,7 +5,7 @@ cd /verif
 kind=$1
 case $kind in
   seeds) items=$(ls seeded | grep -E "^C[0-9]+-[0-9]+$");;
-  refactors) items=$(ls selftest/refactor/*.diff);;
+  refactors) items=$(ls selftest/refactor/${PAR_GLOB:-*}.diff);;
   mutants) items=$(ls selftest/mut/*.diff);;
 esac
 i=0
